@@ -488,10 +488,11 @@ def enumerate_space(tier):
             for pi, place in enumerate(PLACES):
                 for r in range(2):
                     rd = RDS[(ji + pi * 2 + r * 5 + ji // 10) % len(RDS)]
-                    b.append(cfg(REP_SERIES[k % len(REP_SERIES)], steps, place, rd, GAPS[(k // 5) % 3]))
+                    if r == 0 or place in ("both", "twice"):       # k advances in any case: the cycling is fixed
+                        b.append(cfg(REP_SERIES[k % len(REP_SERIES)], steps, place, rd, GAPS[(k // 5) % 3]))
                     k += 1
-        slices.append(["B: all 3-step journeys (up to 375 min) x all placements x 2 request durations each (cycling over all 10)",
-                       len(b)])
+        slices.append(["B: all 3-step journeys (up to 375 min) x all placements x 1 (first, last) or 2 (both, twice) "
+                       "request durations each (cycling over all 10)", len(b)])
         c = [cfg(s, steps, place, rd, gap) for s in SERIES for gap in GAPS for steps, place, rd in EDGE_COMBOS]
         slices.append(["C: all 122 start series x all gaps x 5 fixed (journey, placement, request duration) combos",
                        len(c)])
